@@ -196,6 +196,7 @@ def run(ctx):
             ctx.out_of_domain("generator gave up")
             continue
         check_text(ctx, text)
+    ctx.observe("transform evaluations at complex measurement values", content.COMPLEX_PROBES[0])
     ctx.extra["hashseed"] = __import__("os").environ.get("PYTHONHASHSEED")
 
 
